@@ -22,7 +22,7 @@ func init() {
 	register(&Property{
 		ID:    "C03",
 		Level: "fault_enumeration",
-		Rule: "seeded overwrite/delete-heavy histories (1..6 keys, 20..300 writes, block 64B..4KiB, threshold 10..60%) interleaved with force/cli compactions (4 entry points), reopen (load self-heal) and planted leftover temp files (4 kinds); " +
+		Rule: "seeded overwrite/delete-heavy histories (1..6 keys - or 40..150 keys, which leaves the compaction to the self-heal of the next Load -, 20..350 writes, block 64B..4KiB, threshold 10..60%) interleaved with force/cli compactions (4 entry points), reopen (load self-heal) and planted leftover temp files (4 kinds); " +
 			"the stored state is compared with the model after every compaction entry point, and every crash point (with torn variants) inside every compaction window is materialised, reloaded and appended to; " +
 			"non-trivial = a compaction actually rewrote the file (rename observed); distinct = hash of (history, compaction count, planted kinds) and of each crash image inside a compaction",
 		Gen: genC03,
@@ -50,10 +50,25 @@ func genC03(seed uint64, tier string) Case {
 	if r.chance(1, 5) {
 		nops = 2 + r.intn(12)
 	}
+	// wide histories: more than half of the entries in the file stay live, so that neither the inline trigger nor
+	// the one on Close compacts (both want total >= 2*live) and the fragmented file is left to the self-heal of the next Load
+	wide := r.chance(1, 6)
+	if wide {
+		nkeys = 40 + r.intn(110)
+		nops = 100 + r.intn(250)
+		c.Cfg["block"] = []int64{1024, 4096}[r.intn(2)] // a compaction of 100 live records in 64-byte blocks has thousands of crash points
+	}
 	for i := 0; i < nops; i++ {
 		ki := int64(r.intn(nkeys))
 		klen := 1 + (ki*7)%23
-		switch r.pick(70, 14, 4, 4, 3, 3, 2) {
+		if wide {
+			klen = 8 + ki%15
+		}
+		w := []int{70, 14, 4, 4, 3, 3, 2}
+		if wide {
+			w = []int{160, 16, 6, 12, 1, 1, 2}
+		}
+		switch r.pick(w...) {
 		case 0:
 			ops := Op{K: "put", A: []int64{ki % 2, klen, ki, int64(r.intn(60)), int64(r.intn(1 << 20))}}
 			c.Ops = append(c.Ops, ops)
